@@ -555,9 +555,10 @@ Definition sample_float (sc_log sc_rev : scaling) (lo hi : Q) (s : sampler) (r :
 Definition sample_int (sc_log : scaling) (lo hi : Z) (s : sampler) (r : raw) : option Q :=
   match s, r with
   | SUniform, RawI i => Some (inject_Z i)       (* randint(lower, upper + 1) *)
-  | SLogUniform, RawU u =>
+  | SLogUniform, RawU u =>   (* np.clip(np.round(np.exp(..)), lower, upper)  [no clip before F-C07-14:
+                                for bounds beyond about 2**47 binary64 exp(log x) is off by more than 0.5] *)
       let a := to_int sc_log (inject_Z lo) in let b := to_int sc_log (inject_Z hi) in
-      Some (inject_Z (round_he (from_int sc_log (a + (b - a) * u))))
+      Some (inject_Z (Zclip (round_he (from_int sc_log (a + (b - a) * u))) lo hi))
   | _, _ => None
   end.
 
